@@ -92,4 +92,16 @@ var specs = map[string]propSpec{
 		Rule: "rapid generates a schema (nesting depth <= 3, required/optional/computed/deprecated attributes, any-attribute bodies, labels, min/max items, dependent bodies keyed by labels / attribute values / defaults / references incl. a second level, extensions) and a configuration rendered from it with ~18% injected violations per opportunity at any depth (unknown attributes and blocks, missing / surplus labels, missing required attributes, too many / too few blocks, deprecated items, dependent-body keys that select nothing). Reference model (written from the statement, over the model schema and the parser's AST; effective schema = static body overlaid with the selected dependent body): expected multiset of (severity, summary, subject range); compared with ValidateFile, and Validate() per file with ValidateFile. Regions the statement does not decide (dynamic blocks, null/unknown key values, ambiguous two-level keys) are excluded from both sides and counted. evaluations = files compared. Non-trivial = at least two kinds of expected diagnostics or a selected dependent body plus a diagnostic; distinct = SHA-1 of the case JSON.",
 		Assumptions: commonAssumptions,
 	},
+	"C13": {
+		Test: "TestC13", Quick: 1500, Thorough: 10000, Shards: 16,
+		QuickTimeout: 10 * time.Minute, ThoroughTimeout: 40 * time.Minute,
+		Rule: "rapid generates a schema (nesting <= 3, token modifiers on blocks / labels / attributes, dependent bodies, extensions) and 1-2 files rendered from it with unknown attributes / blocks, surplus labels, references, functions, literals of every type, layout stress, half-typed values and (40% of cases) token-level edits. On every file: tokens sorted by start, pairwise non-overlapping, non-empty, of advertised types, identical on repetition. On the model side (effective schema from the serialisable model + parser AST): the attribute-name / block-type / label tokens must be exactly the schema-known elements with modifiers = element's + all enclosing blocks'; no token at all inside unknown attributes, unknown blocks or surplus labels; every other token lies inside the value of a schema-known attribute; plain bool/number/string literals under a matching literal-type / any-expression constraint carry exactly the literal token. evaluations = files. Non-trivial = at least one token inside a value; distinct = SHA-1 of the case JSON.",
+		Assumptions: append([]string{"value-level exactness is decided for plain literals only; reference-step and function-name tokens are bounded (inside known values) here and decided by C11 / C08", "declared attribute named count/for_each in a body that also enables the extension: don't care"}, commonAssumptions...),
+	},
+	"C12": {
+		Test: "TestC12", Quick: 300, Thorough: 3000, Shards: 16,
+		QuickTimeout: 10 * time.Minute, ThoroughTimeout: 40 * time.Minute,
+		Rule: "rapid generates a schema (nesting <= 3, descriptions on attributes / blocks / labels / dependent bodies, dependent bodies boosted, extensions) and 1-2 files rendered from it (layout stress, half-typed values, 45% with token-level edits); HoverAtPos runs at every character boundary (<= 400 per file). Always: a result is an error, nothing, or non-empty content with a valid range (C02 rules) that contains the cursor. With the model (effective schema from the serialisable model + parser AST, cursor classified by the harness): on a known attribute name -> content starts with **name**, carries the effective schema's description, range = whole attribute; on a known block type -> **type**, description, range = type keyword; on a label within the schema's labels -> content names the label value, carries the selected dependent body's description (else the label's), range = the label; on unknown attributes / blocks / surplus labels -> nothing; inside a value -> the range lies inside the value. evaluations = positions. Non-trivial = at least one hover returned data; distinct = SHA-1 of the case JSON.",
+		Assumptions: append([]string{"value-level content (which sub-expression is described) is only bounded by range containment, not compared with a model", "dynamic blocks and declared-vs-extension attribute clashes: don't care"}, commonAssumptions...),
+	},
 }
